@@ -568,7 +568,9 @@ class MinFlowDecomp(pathmodel.AbstractPathModelDAG): # Note that we inherit from
         
         self._lowerbound_k = max(self._lowerbound_k, math.ceil(math.log2(len(all_weights))))
 
-        self._lowerbound_k = max(self._lowerbound_k, stG.get_width(edges_to_ignore=self.edges_to_ignore))
+        # The edges from the global source / to the global sink are not part of the decomposition problem 
+        # (as in the k-models, they are ignored): a source whose out-going edges are all ignored needs no path
+        self._lowerbound_k = max(self._lowerbound_k, stG.get_width(edges_to_ignore=list(self.edges_to_ignore) + list(stG.source_sink_edges)))
 
         if self.optimization_options.get("use_min_gen_set_lowerbound", MinFlowDecomp.use_min_gen_set_lowerbound):  
             mingenset_lowerbound = self._get_lowerbound_with_min_gen_set()
